@@ -690,6 +690,8 @@ class Engine:
                 if len(a) != len(b):
                     return False
                 return self.And(*[self.eq(x, y) for x, y in zip(a, b)])
+            if isinstance(a, Obj) and '__eq__' in a.attrs and a is not b:
+                return self.truth(self.call(a.attrs['__eq__'], [b], {}))      # == of an abstract object: given by the contract
             if isinstance(a, (Obj, Closure, ExcClass)) or isinstance(b, (Obj, Closure, ExcClass)):
                 return a is b
             return a == b
